@@ -19,7 +19,8 @@ CHECKS = {
              "is_list are folded over all 235 parameter areas / type shapes and the encrypted() substitution guard is evaluated "
              "on every dataclass of L; F framing by loop specialisation of the command/response walkers with L: fields decoded per (tag, "
              "response code) variant, area tables and keys, byte-sized session area, encryption flag provenance, header-only "
-             "failed responses. Event values for concrete bytes are not decided.",
+             "failed responses; W10 (= C05-E3) the pump's one silent return is restricted to the command/response stream, so no "
+             "root event of a top-level decode is swallowed. Event values for concrete bytes are not decided.",
         note="trusted: CPython ast; E1 model (guards G1-G7); semantics of int.from_bytes, dataclasses.fields order and generators.",
         technique="pinned table snapshot + decision-list evaluation over all type descriptors + partial evaluation / def-use rules on the walkers",
         design="4/C01",
@@ -92,7 +93,8 @@ CHECKS = {
              "of fields(T), iteration over an optional parameter) must be a raise of a documented class, caught locally or at "
              "every call site, dead by its own guard, or discharged by a rule re-evaluated on the current tree from L "
              "(C20 T1-T5, W1), the specialised traces (C03-R1, C01-F), the pump typestate (C10-T1) or call-site shapes; an "
-             "undischarged site is reported with its input dependence. X2 termination: acyclic type graph, messages and "
+             "undischarged site is reported with its input dependence; encrypted() is folded over all parameter areas of L and "
+             "must not raise on any. X2 termination: acyclic type graph, messages and "
              "byte-sized list elements consume >= 1 byte, only bounded data-driven loop forms, one pull per pump iteration.",
         note="trusted: CPython ast; L (E1). Implicit failures outside the closed idiom list (e.g. a TypeError from an operator on "
              "an unexpected object) are not excluded - no untyped-Python static analysis can. Open finding K2 is listed in "
@@ -150,7 +152,8 @@ CHECKS = {
              "iterator is the canonical one-byte pull or a remaining-bytes attach; the primitive walker emits its event "
              "with no byte request in between. T2: the buffer parameters of the pump and of the three lazy front-end "
              "scanners are used only through iter()/next() (except inside raise). T3: the processor never receives the "
-             "buffer or iterator. This is the structural core of the property; concrete pull counts are its dynamic view.",
+             "buffer or iterator. T5 (= C05-E3): the empty prefix of a non-stream decode reports depletion like every other "
+             "prefix. This is the structural core of the property; concrete pull counts are its dynamic view.",
         note="trusted: CPython ast; Python iterator/generator protocol. pcapng.marshal materialises its input by design (documented in the code) and is outside T2.",
         technique="CFG + typestate abstract interpretation of the pump, who-may-use rules on iterator/buffer variables",
         design="4/C10",
@@ -238,12 +241,13 @@ CHECKS = {
         category="proof",
         text="M1 decides the mask clause exhaustively on the tables reconstructed from source: for all 12 "
              "attribute types every mask is non-zero, inside the word, pairwise disjoint and the masks cover "
-             "2**(8*size)-1. M2 decides by def-use patterns that the accessor returns (value & mask) shifted by the "
-             "mask's trailing zeros and that the printer emits one row per mask with value bits under mask ones. "
-             "The per-value clause (shift result, dotted strings) is not decided.",
+             "2**(8*size)-1. M2 evaluates the accessor Bit.__get__ (abstractly, nothing of the repository runs) for every mask "
+             "of every attribute type with the register value symbolic - each bit a symbol, case split where the code branches "
+             "on a bit - and requires the wiring (value & mask) >> trailing_zeros(mask) for all values at once; the printer "
+             "emits one row per mask with value bits under mask ones. The rendered strings for concrete values are not decided.",
         note="trusted: CPython ast; E1 model of tpm_bitfield (guards G1/G5/G7 re-validated each run). Decides the "
              "table clause and the accessor/row shape, not concrete rendered strings.",
-        technique="static table reconstruction (abstract evaluation of spec modules) + AST def-use patterns",
+        technique="static table reconstruction (abstract evaluation of spec modules) + bit-vector abstract evaluation of the accessor + AST def-use patterns",
         design="4/C17",
     ),
     "C18": dict(
